@@ -38,6 +38,9 @@ type supSim struct {
 	alive    map[uint64]int // ghost: processes really running, pid -> spec name
 	args     map[uint64]int
 	exitSent map[uint64]string
+	awaited   map[uint64]bool // targets of the most recent stop request of the restart strategy
+	dying     uint64
+	exitByAPI map[uint64]bool // the exit was requested by DisableChild (not by the restart strategy)
 	inflight []simExit
 	nextPid  uint64
 	status   int // 0 running, 1 terminated, 2 panicked
@@ -59,6 +62,9 @@ type supSim struct {
 	failsKnown bool
 
 	staleOverwrite bool // D26 region entered (oracle-side classification)
+	spontaneous bool // the exit being handled was not induced by the supervisor
+	sawForeign  bool
+	sigDied     bool
 	restartFrom int // index of the child whose failure started the restart that is in progress, -1 = none
 	stopAllPending bool // one-for-one sent exits from the exit dispatch: it is stopping all children
 	startDuringShutdown bool // D27 region entered
@@ -67,7 +73,7 @@ type supSim struct {
 }
 
 func newSupSim(c *Ctx, g *Rng, cfg supCfg) *supSim {
-	s := &supSim{c: c, g: g, cfg: cfg, kids: map[uint64]int{}, alive: map[uint64]int{}, args: map[uint64]int{}, exitSent: map[uint64]string{},
+	s := &supSim{c: c, g: g, cfg: cfg, kids: map[uint64]int{}, alive: map[uint64]int{}, args: map[uint64]int{}, exitSent: map[uint64]string{}, exitByAPI: map[uint64]bool{},
 		nextPid: 100, restartFrom: -1, enabled: map[int]bool{}, sig: map[int]bool{}, lastExit: map[int]string{}, exposedD25: map[int]bool{}, failsKnown: true}
 	for _, ch := range cfg.Children {
 		s.order = append(s.order, ch.Name)
@@ -152,7 +158,15 @@ func (s *supSim) pendingStops() []uint64 {
 func (s *supSim) panicked(where string) {
 	s.status = 2
 	pend := s.pendingStops()
-	if (s.cfg.Kind == "afo" || s.cfg.Kind == "rfo") && s.cfg.KO && len(pend) > 0 && where == "childTerminated" {
+	// D18 region: KeepOrder, a child that was NOT told to stop died while another one is being stopped
+	// (or one whose stop was requested by DisableChild is still being waited for)
+	byDisable := false
+	for _, p := range pend {
+		if s.exitByAPI[p] {
+			byDisable = true
+		}
+	}
+	if (s.cfg.Kind == "afo" || s.cfg.Kind == "rfo") && s.cfg.KO && len(pend) > 0 && where == "childTerminated" && (s.spontaneous || byDisable || !s.awaited[s.dying]) {
 		s.violation("C08/D18-arfo-keeporder-panic", "all/rest-for-one with KeepOrder: panic(gen.ErrInternal) in childTerminated when a child died while another one was being stopped")
 	} else {
 		s.violation("C08/panic", "supervisor state machine panicked in "+where)
@@ -210,10 +224,17 @@ func (s *supSim) handleAction(o supOut) string {
 			if s.inDispatch && s.cfg.Kind == "ofo" {
 				s.stopAllPending = true
 			}
+			if s.inDispatch {
+				s.awaited = map[uint64]bool{}
+				for _, p := range a.Terminate {
+					s.awaited[p.ID] = true
+				}
+			}
 			for _, p := range a.Terminate {
 				if _, ok := s.alive[p.ID]; ok {
 					if _, dup := s.exitSent[p.ID]; !dup {
 						s.exitSent[p.ID] = supReasonS(a.Reason)
+						s.exitByAPI[p.ID] = !s.inDispatch
 					}
 					s.ev("exit", s.alive[p.ID], p.ID, supReasonS(a.Reason))
 				} else {
@@ -222,6 +243,7 @@ func (s *supSim) handleAction(o supOut) string {
 						if e.pid == p.ID {
 							if _, dup := s.exitSent[p.ID]; !dup {
 								s.exitSent[p.ID] = supReasonS(a.Reason)
+								s.exitByAPI[p.ID] = !s.inDispatch
 							}
 						}
 					}
@@ -246,6 +268,9 @@ func (s *supSim) terminate(reason string) {
 	s.status = 1
 	s.final = reason
 	s.ev("term", 0, 0, reason)
+	if reason != "spawnerr" && reason != "exceeded" && !s.sawForeign && !s.sigDied && (s.cfg.DAS || s.cfg.Kind == "sofo") {
+		s.violation("C08/unexpected-termination", fmt.Sprintf("supervisor terminated with %q although no significant child terminated, no foreign exit arrived, the restart intensity was not exceeded and auto-shutdown is disabled (or not applicable)", reason))
+	}
 	if reason != "spawnerr" && len(s.alive) > 0 {
 		s.violation("C08/terminated-with-running-children",
 			fmt.Sprintf("supervisor terminated (%s) while %d of its children were still running and had not been waited for", reason, len(s.alive)))
@@ -317,6 +342,11 @@ func (s *supSim) deliver(i int) {
 	}
 	nstart := s.countStarts()
 	delete(s.exitSent, e.pid)
+	s.dying = e.pid
+	s.spontaneous = !induced
+	if s.sig[name] {
+		s.sigDied = true
+	}
 	s.lastExit[name] = e.reason
 	s.handledDeaths++
 	s.inDispatch = true
@@ -355,6 +385,8 @@ func (s *supSim) foreign(reason string) {
 		return
 	}
 	s.ev("foreign", 0, 7, reason)
+	s.sawForeign = true
+	s.spontaneous = true
 	s.inDispatch = true
 	o := s.run.terminated(0, 7, reason, s.gap())
 	if o.Panicked {
@@ -1003,6 +1035,10 @@ func (s *supSim) episodeSingleOn(name int, reason string, gap int64) {
 	nm := s.kids[e.pid]
 	delete(s.kids, e.pid)
 	s.lastExit[nm] = reason
+	s.spontaneous = true
+	if s.sig[nm] {
+		s.sigDied = true
+	}
 	s.handledDeaths++
 	s.inDispatch = true
 	o := s.run.terminated(nm, e.pid, reason, gap)
